@@ -649,7 +649,14 @@ class Interp:
                     if st["init"] is None:
                         self.bind_uninit(st["pat"], env)
                         continue
-                    v = self.eval(st["init"], env, mod)
+                    if st["pat"].get("k") == "PType" and "Hash" in (st["pat"].get("ty") or ""):
+                        self.collect_hint = st["pat"]["ty"]
+                        try:
+                            v = self.eval(st["init"], env, mod)
+                        finally:
+                            self.collect_hint = None
+                    else:
+                        v = self.eval(st["init"], env, mod)
                     if not self.pmatch(st["pat"], v, env, mod):
                         if st["else"] is not None:
                             self.eval(st["else"], env, mod)
